@@ -27,6 +27,17 @@ def grid(tier):
                     out.append({'mode': 'client', 'class': 'deadline', 'transport': 'h2', 'shim': {'cap': 65536, 'rq': 65536, 'wq': 65536, 'pend': 0},
                                 'shape': 'unary', 'server': server, 'client': client, 'req': {'meta': [], 'msgs': [[1]]},
                                 'script': {'init_meta': [], 'msgs': [[2]], 'end': {'ok': True}, 'fail_before': False, 'no_compress': False, 'latency_ms': L}})
+    # the same deadlines for calls whose content type carries a subtype (application/grpc+proto)
+    for tc, tsrv, L in ((1000, None, 2500), (None, 1000, 2500), (2000, 1000, 1500), (1000, None, 500), (None, None, 1500)):
+        client = {'send': '', 'accept': [], 'max_dec': -1, 'max_enc': -1, 'ctype': 'application/grpc+proto'}
+        server = {'send': [], 'accept': [], 'max_dec': -1, 'max_enc': -1}
+        if tc is not None:
+            client['timeout_ms'] = tc
+        if tsrv is not None:
+            server['timeout_ms'] = tsrv
+        out.append({'mode': 'client', 'class': 'deadline_content_subtype', 'transport': 'h2', 'shim': {'cap': 65536, 'rq': 65536, 'wq': 65536, 'pend': 0},
+                    'shape': 'unary', 'server': server, 'client': client, 'req': {'meta': [], 'msgs': [[1]]},
+                    'script': {'init_meta': [], 'msgs': [[2]], 'end': {'ok': True}, 'fail_before': False, 'no_compress': False, 'latency_ms': L}})
     # a peer that never answers and knows nothing about grpc-timeout: only the client's own timer (armed from the caller's
     # timeout and / or Endpoint::timeout) can end the call; latency is "infinite" (the contract's L is set beyond every timeout)
     for tc, te in ((1000, None), (None, 2000), (1000, 2000), (3000, 2000)):
